@@ -29,13 +29,13 @@ Example C10_nonvacuous :
 Proof. vm_compute. repeat split; reflexivity. Qed.
 
 (* ---- over every reachable state (Proofs/ReidxInv.v): after a successful replace_import_in_module of the
-   import item at function position k with a body of fingerprint fp, outside D02 / D06 / D26 the id k (which
+   import item at function position k with a body of fingerprint fp, outside D02 the id k (which
    every former use carries) is mapped to the index at which the emitted module has exactly that body.
    (k is the function-space position: the API takes an ImportsID and uses it as one, D07.) *)
 Theorem C10_replaced_import_id_designates_the_new_body :
   forall m k fp m' r it, wf m -> Reindex.step m (ImportToLocal k fp) = Ok (m', r) ->
   nthN (s_items (m_f m)) k = Some it -> is_import it = true ->
-  okD02 SF m' = true -> okD06 SF m' = true -> okD26 SF m' = true ->
+  okD02 SF m' = true ->
   forall l mp, index_space (m_f m') = Ok (l, mp) ->
   exists q, lookup mp k = Some q /\ nthN (space_of_model m' l SF) q = Some fp.
 Proof. exact i2l_binding. Qed.
